@@ -135,7 +135,12 @@ class ExprMixin:
                 (isinstance(expr, ast.Constant) and expr.value is None):
             self.consts[key] = expr.value
             return expr.value
-        if isinstance(expr, (ast.Tuple, ast.List, ast.Dict, ast.Call, ast.Lambda)):
+        if isinstance(expr, ast.Call) and isinstance(expr.func, ast.Name) and expr.func.id == '__opaque__':
+            c = z3.Real('K_' + name)
+            self.consts[key] = c
+            return c
+        if isinstance(expr, (ast.Tuple, ast.List, ast.Dict, ast.Lambda)) or \
+                (isinstance(expr, ast.Call) and not self.closed_numeric(expr)):
             if isinstance(expr, (ast.Tuple, ast.List)) and all(isinstance(e, ast.Constant) for e in expr.elts):
                 v = tuple(self.ev_Constant(e, st, fr) for e in expr.elts)
                 self.consts[key] = v
@@ -154,6 +159,15 @@ class ExprMixin:
         except Unsupported:
             pass
         return c
+
+    def closed_numeric(self, expr):
+        for n in ast.walk(expr):
+            if isinstance(n, ast.Call):
+                f = n.func
+                nm = f.id if isinstance(f, ast.Name) else (f.attr if isinstance(f, ast.Attribute) else None)
+                if nm not in ('sqrt', 'exp', 'log', 'log10', 'sin', 'cos', 'pow', 'float', 'int', 'hyp2f1'):
+                    return False
+        return True
 
     def resolve_import(self, origin, name, fr):
         """Resolve `from a.b cimport name` to a FuncVal / ClassVal / constant in the source trees."""
@@ -324,8 +338,12 @@ class ExprMixin:
         """Python index semantics with bounds obligation (or memory-safety obligation when boundscheck is off)."""
         ic = concrete(i)
         i = to_int(i)
+        if getattr(fr, 'spec', None) is not None:
+            return i            # contract clauses index arrays mathematically (no wrap-around, no bounds semantics)
         wrap = fr.flags.get('wraparound', True) or not fr.is_cython
-        if getattr(fr, 'spec', None) is None:
+        if getattr(fr, 'spec', None) is None and what in (self.flag('skip_bounds') or []):
+            self.assumptions.add('index %s in range: NOT proved here (relies on the cache coherence invariant of C01)' % what)
+        elif getattr(fr, 'spec', None) is None:
             if fr.is_cython and fr.flags.get('boundscheck') is False:
                 self.emit(st, 'bounds.%s' % what, z3.And(i >= (0 if not wrap else -n), i < n), 'unchecked index')
             elif 'IndexError' in self.catching(fr):
